@@ -4,6 +4,7 @@ CONSTANTS
   NN = 3
   PP = 1
   Samples = 1500
+  Slice = 0
   Chains = 16
 INVARIANT Theorems
 CONSTRAINT Emit
